@@ -428,6 +428,51 @@ def run(world, rep, tier, only=None):
         rep.ob("C09.u", site(ip, "child receives what is left of the range#%d" % i), got == need,
                "count argument of the recursive call `%s` derives from %s (needs start, count and offset)" % (T.pp(a6)[:40], sorted(got)))
 
+    # ------------------------------------------------------------------ C09.v a write into the inline area lands at the position
+    # ext2fs_file_write_inline_data() copies the caller's bytes to buf + pos and stores the inline area again.  The
+    # number of bytes copied is the caller's count (the position moves the destination, it is not taken off the
+    # count), and the length of the area stored afterwards comes from what was there (the length read back from
+    # ext2fs_inline_data_get) as well as from where the write ends (position and count): a length made of the count
+    # alone cuts the area short at every position but 0.
+    wi = fio["ext2fs_file_write_inline_data"]
+    gets, sets_ = calls_to(wi, "ext2fs_inline_data_get"), calls_to(wi, "ext2fs_inline_data_set")
+    cps = [n for n in calls_to(wi, "memcpy") if _buf_rooted(arg(n, 0) or {})]
+    rep.floor("C09.v inline get / copy / set in ext2fs_file_write_inline_data", min(len(gets), len(sets_), len(cps)), 1)
+    old = {T.path(T.strip(arg(g, 4)).get("e") if T.strip(arg(g, 4)).get("k") == "u" else arg(g, 4)) for g in gets} - {None}
+    is_pos = lambda y: _is_file_field(y, "pos")
+    is_cnt = lambda y: T.path(y) == "nbytes"
+
+    def pos_off_count(e):
+        # somewhere in what the length is made of, the position is subtracted from something made of the count
+        seen, todo = set(), [e]
+        while todo:
+            x = todo.pop()
+            for y in T.walk(x):
+                if isinstance(y, dict) and y.get("k") == "b" and y.get("o") in ("-", "-=") and \
+                        any(is_pos(z) for z in T.walk(y["r"])) and depends_on(wi, y["l"], is_cnt):
+                    return True
+            for v in T.vars_in(x):
+                if v not in seen:
+                    seen.add(v)
+                    for n in wi.events("S"):
+                        if T.path(n.ev["lhs"]) == v and isinstance(n.ev.get("rhs"), dict):
+                            if n.ev.get("o") == "-=" and any(is_pos(z) for z in T.walk(n.ev["rhs"])) and depends_on(wi, n.ev["lhs"], is_cnt):
+                                return True
+                            todo.append(n.ev["rhs"])
+        return False
+    for i, c in enumerate(cps):
+        ln = arg(c, 2)
+        rep.ob("C09.v", site(wi, "bytes copied to buf + pos are the caller's count#%d" % i),
+               depends_on(wi, arg(c, 0), is_pos) and depends_on(wi, ln, is_cnt) and not pos_off_count(ln),
+               "memcpy(file->buf + file->pos, buf, %s): the length derives from nbytes and the position is not subtracted from it" % T.pp(ln)[:30])
+    for i, c in enumerate(sets_):
+        a4 = arg(c, 4)
+        from_old = depends_on(wi, a4, lambda y: T.path(y) in old)
+        from_end = depends_on(wi, a4, is_pos) and depends_on(wi, a4, is_cnt)
+        rep.ob("C09.v", site(wi, "inline area stored with max(old length, end of the write)#%d" % i), from_old and from_end,
+               "length handed to ext2fs_inline_data_set `%s` derives from the length read back (%s): %s, from position and count: %s"
+               % (T.pp(a4)[:30], sorted(old), from_old, from_end))
+
 
 def expand_keeps_size(prog, rep, RULE):
     """changing the storage form of a regular file (inline area -> blocks) does not touch its length: the routine that
